@@ -470,6 +470,31 @@ def run_cross_copy(rec: Recorder, d: Path):
             rec.check(st == "err", "c17:reserved-not-rejected:h5_copy_from_to", f"copying a dataset with value b'\\x7f' from HDF5 into IH5 must raise; got {st} {val}", case, FN_COPY + FN_GUARD)
             rec.check(before == ih5lib.phys_state(robj), "c17:reserved-left-node:h5_copy_from_to", "rejected copy of the reserved value changed the target", case, FN_COPY)
             rec.case(("crosscopy",), nontrivial=True)
+            # a NODE of another container as copy source (CopySource includes h5py nodes and nodes of other records); the destination record
+            # has nodes at the same paths with other bytes: the copy carries the bytes of the node that was passed
+            f["data/raw.bin"] = np.void(b"\x00\x00A-run\x00\x7f\x00\xff\x00\x00")
+            f["data/empty.bin"] = h5py.Empty("S1")
+            robj["data/raw.bin"] = np.void(b"B-run: something completely different\x00")
+            robj["data/empty.bin"] = np.void(b"not empty here")
+            other = IH5Record(d / "cross-src", "w")
+            try:
+                other["data/raw.bin"] = np.void(b"\x00C-run\x00\x00")
+                other.commit_patch()
+                other.create_patch()
+                other["data/more.bin"] = np.void(b"\x01\x00")
+                want = {"from_h5/raw.bin": b"\x00\x00A-run\x00\x7f\x00\xff\x00\x00", "from_h5/empty.bin": b"", "h5_raw.bin": b"\x00\x00A-run\x00\x7f\x00\xff\x00\x00",
+                        "from_ih5/raw.bin": b"\x00C-run\x00\x00", "from_ih5/more.bin": b"\x01\x00", "ih5_raw.bin": b"\x00C-run\x00\x00"}
+                for src, dst in ((f["data"], "from_h5"), (f["data/raw.bin"], "h5_raw.bin"), (other["data"], "from_ih5"), (other["data/raw.bin"], "ih5_raw.bin")):
+                    st, val = guarded(lambda: robj.copy(src, dst))
+                    rec.check(st == "ok", "c17:crosscopy:node-source-failed", f"copy of a node of another container to {dst} failed: {val}", case, FN_COPY + ["ih5/overlay.py:IH5Group.copy"])
+                robj.commit_patch()
+                for k, bs in want.items():
+                    st, val = guarded(lambda: bytes_of(robj[k][()]))
+                    rec.check(st == "ok" and val == bs, "c17:crosscopy:node-source-bytes", f"{k} copied from a node of another container reads {val!r}, the source node holds {bs!r}", case, FN_COPY + ["ih5/overlay.py:IH5Group.copy"])
+                rec.check(bytes_of(robj["data/raw.bin"][()]) == b"B-run: something completely different\x00", "c17:crosscopy:destination-own-node-changed", "the destination's own node changed", case, FN_COPY)
+                rec.case(("crosscopy-node-source",), nontrivial=True)
+            finally:
+                other.close()
         finally:
             robj.close()
 
